@@ -49,31 +49,13 @@ var stmtList = []*stmtDef{
 }
 
 // Pairs of DISTINCT statements whose texts are "almost equal": the variant differs from the base text only in the
-// white space inside a string literal / a quoted identifier, in letter case (inside a literal, inside a quoted identifier,
-// of the keywords) or in a leading / trailing blank or a trailing semicolon. A server identifies a prepared statement by its
+// white space inside a string literal / a quoted identifier or in letter case inside a literal / a quoted identifier, i.e.
+// statements that MEAN something different. A server identifies a prepared statement by its
 // exact text, so the node issues different ids for the two and the driver has to keep them apart.
 const (
 	simSelect = `SELECT "My Col" FROM ks.t WHERE k = ? AND c = 'a b'`
 	simInsert = `INSERT INTO ks.t (k, "My Col") VALUES (?, 'a b')`
 )
-
-func lowerOutsideQuotes(s string) string {
-	b := []byte(s)
-	var quote byte
-	for i, ch := range b {
-		switch {
-		case quote != 0:
-			if ch == quote {
-				quote = 0
-			}
-		case ch == '\'' || ch == '"':
-			quote = ch
-		case ch >= 'A' && ch <= 'Z':
-			b[i] = ch + 'a' - 'A'
-		}
-	}
-	return string(b)
-}
 
 var simKinds = []struct {
 	kind string
@@ -85,10 +67,8 @@ var simKinds = []struct {
 	{"qid-2sp", func(b string) string { return strings.Replace(b, `"My Col"`, `"My  Col"`, 1) }},
 	{"lit-case", func(b string) string { return strings.Replace(b, "'a b'", "'A b'", 1) }},
 	{"qid-case", func(b string) string { return strings.Replace(b, `"My Col"`, `"my col"`, 1) }},
-	{"kw-case", lowerOutsideQuotes},
-	{"lead-sp", func(b string) string { return " " + b }},
-	{"trail-sp", func(b string) string { return b + " " }},
-	{"trail-semi", func(b string) string { return b + ";" }},
+	// (variants that mean the same to a CQL parser - keyword case, leading/trailing blank, trailing semicolon - are left
+	// out on purpose: a driver that shared one cache entry between them would send an id "of the same statement")
 }
 
 func init() {
@@ -290,11 +270,11 @@ type world struct {
 	ops      map[int]*opInfo
 	told     map[int]map[string]bool // operation -> ids it was told are unknown
 	maxLen   int
-	cancelAt int // seq stamp of the canceller's cancel() (0: not yet / none)
+	cancelAt int     // seq stamp of the canceller's cancel() (0: not yet / none)
 	victim   *opInfo // context scenarios: the operation whose context ends (first operation of a freely chosen executor)
-	phase    int // 1: a PREPARE has reached a node; 2: an EXECUTE of the victim operation has reached a node
-	gate     int // phase the canceller waits for (free choice)
-	finished int // executor threads that have returned
+	phase    int     // 1: a PREPARE has reached a node; 2: an EXECUTE of the victim operation has reached a node
+	gate     int     // phase the canceller waits for (free choice)
+	finished int     // executor threads that have returned
 }
 
 // tell records that the operations whose values are in el were answered UNPREPARED(id).
@@ -1123,10 +1103,10 @@ func main() {
 		}
 	}
 	mcreport.Main("C14", "model_checking",
-		"delay-bounded exhaustive exploration of 2-3 executor threads (1-2 prepared queries / batches each) on a real Session over 1-2 scripted nodes: every schedule, timer and fault placement with at most T deviations from the default schedule (P: run another thread, D: fire a request timeout early, F: the node fails a PREPARE with an ERROR frame / never answers it / forgets a prepared id and answers UNPREPARED); scenarios vary the statements (5 statements with different bind and result metadata; 10 kinds of PAIRS of distinct statements with almost equal texts - white space inside a string literal / quoted identifier (two blanks, tab, newline), letter case inside a literal / quoted identifier / of the keywords, a leading or trailing blank, a trailing semicolon - each as two queries and as two entries of one batch), MaxPreparedStmts (default, 1, 2), hosts (1, 2), queries vs batches, right vs wrong number of bound values, and whose context ends (the first operation of ANY one executor - the one that wins the race to PREPARE or one waiting on that PREPARE - cancelled at a freely chosen gate or by a 20ms deadline, with the same statement executed again while the PREPARE, answered 30ms late, is still in flight); node logs (ids issued per host and statement, values decoded against the statement's bind metadata) and caller results are checked against the property",
+		"delay-bounded exhaustive exploration of 2-3 executor threads (1-2 prepared queries / batches each) on a real Session over 1-2 scripted nodes: every schedule, timer and fault placement with at most T deviations from the default schedule (P: run another thread, D: fire a request timeout early, F: the node fails a PREPARE with an ERROR frame / never answers it / forgets a prepared id and answers UNPREPARED); scenarios vary the statements (5 statements with different bind and result metadata; 6 kinds of PAIRS of distinct statements with almost equal texts - white space inside a string literal / quoted identifier (two blanks, tab, newline), letter case inside a literal / quoted identifier - each as two queries and as two entries of one batch), MaxPreparedStmts (default, 1, 2), hosts (1, 2), queries vs batches, right vs wrong number of bound values, and whose context ends (the first operation of ANY one executor - the one that wins the race to PREPARE or one waiting on that PREPARE - cancelled at a freely chosen gate or by a 20ms deadline, with the same statement executed again while the PREPARE, answered 30ms late, is still in flight); node logs (ids issued per host and statement, values decoded against the statement's bind metadata) and caller results are checked against the property",
 		[]string{"1 connection per host, round-robin host selection, request timeout 100ms, protocol v4, no control connection, no retry policy",
 			"every PREPARE returns a fresh host-specific id (<host>/<statement>/g<n>); earlier ids stay valid until the node forgets them",
-		"the node identifies a statement by its exact text (as a server does: the id is a digest of the text): texts that differ in any byte are different statements with different ids",
+			"the node identifies a statement by its exact text (as a server does: the id is a digest of the text): texts that differ in any byte are different statements with different ids",
 			"stream-allocator atomics are not scheduling points (C08); the LRU has no internal scheduling points, so its length is read between steps"},
 		defs, 75*time.Second, 25*time.Minute, nil)
 }
